@@ -30,6 +30,41 @@ thread_local! {
     static COUNTS: Cell<(u64, u64, u64, u64)> = const { Cell::new((0, 0, 0, 0)) };
 }
 
+thread_local! {
+    /// "another thread gets scheduled here": called at every OS-call boundary while armed
+    static OBSERVER: RefCell<Option<Box<dyn FnMut(&'static str)>>> = const { RefCell::new(None) };
+    static OBS_COUNT: Cell<u64> = const { Cell::new(0) };
+}
+
+pub fn set_observer(o: Option<Box<dyn FnMut(&'static str)>>) {
+    OBSERVER.with(|x| *x.borrow_mut() = o);
+    OBS_COUNT.with(|c| c.set(0));
+}
+
+fn observe(point: &'static str) {
+    // the first 48 boundaries of an API call, then every 2048th (a full scan makes 131 074)
+    let n = OBS_COUNT.with(|c| {
+        let v = c.get();
+        c.set(v + 1);
+        v
+    });
+    if n >= 48 && n % 2048 != 0 {
+        return;
+    }
+    let taken = OBSERVER.with(|x| x.borrow_mut().take());
+    if let Some(mut f) = taken {
+        let was = ARMED.with(|a| a.replace(false));
+        f(point);
+        ARMED.with(|a| a.set(was));
+        OBSERVER.with(|x| {
+            let mut b = x.borrow_mut();
+            if b.is_none() {
+                *b = Some(f);
+            }
+        });
+    }
+}
+
 pub fn arm(on: bool) {
     ARMED.with(|a| a.set(on));
 }
@@ -99,6 +134,7 @@ pub unsafe extern "C" fn mmap(addr: *mut libc::c_void, len: libc::size_t, prot: 
             c.set(v)
         });
         record(NEv::Mmap { hint: addr as u64, len: len as u64, prot, flags, ret: r as u64 });
+        observe("mmap");
     }
     r
 }
@@ -114,6 +150,7 @@ pub unsafe extern "C" fn munmap(addr: *mut libc::c_void, len: libc::size_t) -> i
             c.set(v)
         });
         record(NEv::Munmap { addr: addr as u64, len: len as u64, ret: r });
+        observe("munmap");
     }
     r
 }
@@ -146,6 +183,7 @@ pub unsafe extern "C" fn mprotect(addr: *mut libc::c_void, len: libc::size_t, pr
             c.set(v)
         });
         record(NEv::Mprotect { addr: addr as u64, len: len as u64, prot, ret: r });
+        observe("mprotect");
     }
     r
 }
@@ -164,5 +202,6 @@ pub unsafe extern "C" fn __clear_cache(start: *mut u8, end: *mut u8) {
         let n = (end as usize).saturating_sub(start as usize).min(64);
         let bytes = if n > 0 && crate::snap::readable(start as u64, n) { std::slice::from_raw_parts(start, n).to_vec() } else { Vec::new() };
         record(NEv::Flush { start: start as u64, end: end as u64, bytes });
+        observe("flush");
     }
 }
